@@ -534,3 +534,91 @@ def run_mapdir(chk, ask, backmap_library):
     finally:
         os.scandir = _REAL_SCANDIR
         shutil.rmtree(base, ignore_errors=True)
+
+
+# ----------------------------------------------------------------------------------------------
+# shipped data (thorough): every force field directory and the mapping directory through the models
+# ----------------------------------------------------------------------------------------------
+def run_shipped_dirs(chk, ask, dump_ff, repr_j, backmap_library):
+    import c13_mapping
+    from vermouth import map_input
+    from vermouth.forcefield import ForceField, find_force_fields
+    data = os.path.join(REPO, 'vermouth', 'data')
+    root = os.path.join(data, 'force_fields')
+    enum = Enumeration(None)
+    names = sorted(os.listdir(root))
+    reqs = []
+    # the .rtp / .bib files are outside the model: the .ff files of every shipped directory are copied to a
+    # temporary directory of the same name
+    base = tempfile.mkdtemp(prefix='c13ship_', dir=_TMPROOT)
+    try:
+        for name in names:
+            d = os.path.join(base, name)
+            os.mkdir(d)
+            for x in os.listdir(os.path.join(root, name)):
+                if x.endswith('.ff'):
+                    shutil.copy(os.path.join(root, name, x), os.path.join(d, x))
+            listing = [[e.name, 0, open(e.path, errors='replace').read().split('\n')] for e in enum.entries(d)]
+            reqs.append(line('ffdir', d, None, listing))
+        for name, ln, mo in zip(names, reqs, ask(reqs)):
+            d = os.path.join(base, name)
+            global _OPENED
+            _hook()
+            _OPENED = []
+            try:
+                ff = ForceField(d)
+            finally:
+                opened, _OPENED = _OPENED, None
+            opened = [os.path.basename(p) for p in opened if os.path.dirname(p) == d]
+            im = enc([ff.name, opened, [dump_ff(ff), [[k, repr_j(v)] for k, v in ff.variables.items()]]])
+            errs = []
+            if sorted(opened) != sorted(os.listdir(d)):
+                errs.append('%s: force field files %r, opened %r' % (name, sorted(os.listdir(d)), opened))
+            chk.count('shipped_ffdir')
+            chk.count('shipped_ffdir_files', len(opened))
+            chk.case('shipped-ffdir-' + name, 'ffdir <copy of the .ff files of> ' + name, im, mo, errs, True)
+    finally:
+        shutil.rmtree(base, ignore_errors=True)
+    # the mapping directory
+    known = find_force_fields(root)
+    mroot = os.path.join(data, 'mappings')
+
+    def tree(path):
+        out = []
+        for e in enum.entries(path):
+            if e.is_dir():
+                out.append([1, e.name, tree(e.path)])
+            else:
+                out.append([0, e.name, open(e.path, errors='replace').read().split('\n')])
+        return out
+    per_file = []
+    real_b, real_m = map_input.read_backmapping_file, map_input.read_mapping_file
+
+    def flat(res):
+        return [(f, t, n, m) for f, d1 in res.items() for t, d2 in d1.items() for n, m in d2.items()]
+
+    def wrap(fn):
+        def inner(infile, force_fields):
+            res = fn(infile, force_fields)
+            per_file.append((os.path.relpath(infile.name, mroot), flat(res)))
+            return res
+        return inner
+    # the libraries are built BEFORE the real run (reading modification mappings writes into the force fields)
+    ln = line('mapdir', backmap_library(known), c13_mapping.library(known), tree(mroot))
+    mo = ask([ln])[0]
+    map_input.read_backmapping_file, map_input.read_mapping_file = wrap(real_b), wrap(real_m)
+    try:
+        out = map_input.read_mapping_directory(mroot, known)
+    finally:
+        map_input.read_backmapping_file, map_input.read_mapping_file = real_b, real_m
+    rows = []
+    for f, t, n, m in flat(out):
+        src = [(p, k) for p, objs in per_file for k, o in enumerate(objs) if o[3] is m]
+        rows.append([f, t, [0, n] if isinstance(n, str) else [1, list(n)], src[0][0] if src else '?', src[0][1] if src else -1])
+    errs = []
+    nfiles = sum(1 for dp, dn, fn in os.walk(mroot) for x in fn if x.endswith(('.map', '.mapping')))
+    if len(per_file) != nfiles:
+        errs.append('%d mapping files shipped, %d read' % (nfiles, len(per_file)))
+    chk.count('shipped_mapdir_entries', len(rows))
+    chk.case('shipped-mapdir', 'mapdir <shipped libraries> <shipped mappings>', enc(rows), mo, errs, True)
+
